@@ -159,7 +159,7 @@ def job_wm(job):
 
 # ------------------------------------------------------------------ (b)
 
-IWS_VALUES = [1, 4, 16, 65535]
+IWS_VALUES = [0, 1, 4, 16, 65535]
 PUMP_FRAMES = 600
 
 
@@ -171,11 +171,12 @@ class Spec:
     def __init__(self, key):
         role, tier = key[1], key[2]
         self.promised = len(key) > 3 and key[3] == "promised"     # variant: starts with a request open and a stream promised on it
+        self.zero = len(key) > 3 and key[3] == "zero"             # variant: starts with INITIAL_WINDOW_SIZE 0 acknowledged
         self.client = role == "client"
         self.tier = tier
-        self.name = "c05-api-%s%s-%s" % (role, "-promised" if self.promised else "", tier)
-        self.max_depth = (5 if self.promised else 6) if tier == "quick" else (7 if self.promised else 8)
-        self.max_streams = 1 if self.promised else 2
+        self.name = "c05-api-%s%s-%s" % (role, "-promised" if self.promised else "-iws0" if self.zero else "", tier)
+        self.max_depth = (5 if (self.promised or self.zero) else 6) if tier == "quick" else (7 if (self.promised or self.zero) else 8)
+        self.max_streams = 1 if (self.promised or self.zero) else 2
 
     def initial(self):
         st = S()
@@ -198,6 +199,11 @@ class Spec:
         st.resv = set()     # client role: promised streams whose response HEADERS have not arrived yet
         st.npush = 0
         st.stuck = {}       # sid -> kind of the action after which the stream first had nothing of its own outstanding and a window <= 0
+        if self.zero:
+            for lab in ("iws:0", "rxack"):
+                step = self.apply(st, lab)
+                assert not step.violations and not st.dead, lab
+            return [("iws0-acknowledged", st)]
         if not self.promised:
             return [("start", st)]
         for lab in ("open", "rxpush:1"):
@@ -492,3 +498,5 @@ def run(ctx):
     for role in ("server", "client"):
         ctx.explore(("c05", role, ctx.tier), time_budget=None if quick else 500)
     ctx.explore(("c05", "client", ctx.tier, "promised"), time_budget=None if quick else 300)
+    for role in ("server", "client"):
+        ctx.explore(("c05", role, ctx.tier, "zero"), time_budget=None if quick else 200)
